@@ -473,6 +473,28 @@ func normaliseGuard(o string) string {
 
 // errEdgeOK: on the edge where err != nil, control must return err itself or record the current element.
 func errEdgeOK(p *Prog, f *ssa.Function, eb *ssa.BasicBlock, errv ssa.Value, call *ssa.Call) string {
+	hasErrResult := false
+	res := f.Signature.Results()
+	for i := 0; i < res.Len(); i++ {
+		if isErrorType(res.At(i).Type()) {
+			hasErrResult = true
+		}
+	}
+	// follow unconditional jumps to the block that ends the edge
+	for hops := 0; hops < 4; hops++ {
+		if j, ok := eb.Instrs[len(eb.Instrs)-1].(*ssa.Jump); ok && len(eb.Instrs) == 1 {
+			_ = j
+			eb = eb.Succs[0]
+		} else {
+			break
+		}
+	}
+	if !hasErrResult {
+		// a predicate-style function cannot hand the error back: it must return on this edge
+		if _, ok := eb.Instrs[len(eb.Instrs)-1].(*ssa.Return); ok {
+			return ""
+		}
+	}
 	last := eb.Instrs[len(eb.Instrs)-1]
 	if ret, ok := last.(*ssa.Return); ok {
 		for _, res := range ret.Results {
